@@ -1,72 +1,717 @@
+/* C19 (+ C02: the operation is not touched after its completion was delivered): include/unifex/create_basic_sender.hpp --
+ * _state (phase + recursion count, guard), the default lock factory, _op::{set_value, set_error, set_done, start (tag_invoke), start_impl,
+ * callback_impl, complete, safe_cb_holder, ~_op}, _stop_callback::operator(), _callback::operator() for the safe and the unsafe base,
+ * _safe_cb_base / _unsafe_cb_base {get, ptr::op, ptr::operator bool}, _receiver_wrapper::complete;
+ * include/unifex/create_raw_sender.hpp connect_impl_ + both connect overloads; include/unifex/detail/lambda_op.hpp start / stop.
+ * Bodies marked @BODY/@EXPR are extracted from /repo on every run.
+ *
+ * Monitor model of the operation's recursive mutex: the protected state is phase_, recursion_, safe_cb_holder_ and the result stored in the
+ * receiver wrapper (ghost `deferred`).  Acquiring the mutex from depth 0 lets every other thread run first (vf_env: havoc subject to the
+ * rely, leaving the monitor invariant LI); the outermost release asserts LI and lets them run again.  The thread that first releases the
+ * mutex with `finished && start has run` owns the completion (ghost claim): it alone calls complete(), outside the lock. */
 #include <stddef.h>
 #include <stdint.h>
+
+struct vf_rmutex { int id; };
+struct state_t { uint16_t recursion_; uint8_t phase_; struct vf_rmutex mutex_; };
+struct op { struct state_t state_; void** safe_cb_holder_; int receiver_, stop_, ctx_, lock_factory_, body_; };
+struct op_guard { uint16_t* recursion_; struct vf_rmutex* locked; };     /* _state::guard: guard_ (the lock_guard) + the reference to recursion_ */
+struct stop_callback { struct op* op_; };
+struct safe_cb { int weak_; int fallback_; };                            /* _callback<.., _safe_cb_base, ..> */
+struct unsafe_cb { void* op_; int fallback_; };                          /* _callback<.., _unsafe_cb_base, ..> */
+struct safe_ptr { void** ptr_; };                                        /* _safe_cb_base::ptr: the locked shared_ptr<void*> */
+struct unsafe_ptr { void* ptr_; };
+struct wrapper { int receiver_; };
+struct raw_sender { int fn_; };
+struct lop { int lambda_; };
+
+enum { T_START, T_CB, T_STOP, T_DTOR };
+enum { ENV_STOP_ONLY, ENV_PROT, ENV_FREE };   /* what the other threads can do while I am outside the lock: only the stop callback can run (before start's
+                                                 locked section no user callback exists) / nobody can deliver the completion / anything */
+enum { CL_NONE, CL_ME, CL_ENV };
+enum { SC_NONE, SC_LIVE, SC_DESTROYED };
+enum { DK_NONE, DK_VALUE, DK_ERROR, DK_DONE };
+enum { EVT_START, EVT_CALLBACK, EVT_STOP };
+enum { LE_CALL, LE_START, LE_STOP };
+
+struct proto { uint8_t ph; _Bool start_ran; uint8_t deferred; _Bool holder; uint8_t claim, completes, stop_cb; _Bool dead; };
+struct vf_ghost {
+  int me, env_mode;
+  _Bool sends_done, nothrow_start, nothrow_stop, nothrow_body, has_fallback, has_start, takes_self;   /* configuration (if constexpr) */
+  unsigned depth, depth0;      /* how often my thread holds the recursive mutex now / held it when the call under verification began */
+  _Bool start_ran;             /* start_impl's locked section has run */
+  uint8_t deferred, kind;      /* results stored in the receiver wrapper, and which */
+  uint8_t claim, completes, stop_cb;
+  _Bool dead;                  /* the receiver has destroyed the operation */
+  _Bool inflight_env;          /* another callback frame somewhere holds a locked shared_ptr to the heap cell */
+  unsigned my_refs;            /* locked shared_ptrs held by the call under verification */
+  struct op snap;
+  /* effects of the call under verification */
+  unsigned body_start, body_cb, body_stop, defers, my_completes, stop_constructs, stop_destructs, holder_resets, made_shared, fallbacks, cb_impl_calls;
+  unsigned locks, stored, errors, factory_calls, wraps, lambda_calls; int lambda_evt; _Bool lambda_self;
+  _Bool threw, any_throw;      /* an exception is in flight out of start_impl / some body threw */
+  _Bool locked_once; uint8_t ph_at_lock;   /* phase found at the first acquisition of this call */
+  _Bool stopped_before_start;
+  _Bool stored_threw, impl_ret, got_ptr;
+  _Bool cb_safe;               /* the call under verification is a safe callback: its weak_ptr observes the operation's heap cell */
+};
+static struct vf_ghost G;
+static struct op OP;
+static void* HC;               /* the heap cell of std::make_shared<void*>(this) */
+static struct stop_callback SCB;
+static struct safe_cb SAFE_CB;
+static struct unsafe_cb UNSAFE_CB;
+static struct wrapper WR;
+static struct raw_sender RS;
+static struct lop LOP;
+
 #include "vf.h"
+static void vf_interfere(void) {}
+
 enum { /*@EXPR phase_enum*/ };
-R0 = /*@EXPR recursion_init*/; P0 = /*@EXPR phase_init*/; H0 = /*@EXPR holder_init*/;
-_Bool state_finished(struct state_t* self)
+#define VF_ALIVE(p) ({ VF_P(!G.dead, "no access to the operation state after its completion was delivered (the receiver may have destroyed it)"); (p); })
+#define VF_CFG_sends_done G.sends_done
+#define VF_CFG_nothrow_start G.nothrow_start
+#define VF_CFG_nothrow_stop G.nothrow_stop
+#define VF_CFG_nothrow_body G.nothrow_body
+#define VF_CFG_has_fallback G.has_fallback
+#define VF_CFG_has_start G.has_start
+#define VF_CFG_takes_self G.takes_self
+
+static _Bool state_finished(struct state_t* self)
 /*@BODY state_finished*/
-_Bool state_completed(struct state_t* self)
+static _Bool state_completed(struct state_t* self)
 /*@BODY state_completed*/
-_Bool state_not_started(struct state_t* self)
+static _Bool state_not_started(struct state_t* self)
 /*@BODY state_not_started*/
-void state_set_started(struct state_t* self)
+static void state_set_started(struct state_t* self)
 /*@BODY state_set_started*/
-void state_set_finished(struct state_t* self)
+static void state_set_finished(struct state_t* self)
 /*@BODY state_set_finished*/
-GRI = /*@EXPR guard_recursion_init*/;
-void guard_ctor()
-/*@BODY guard_ctor*/
-void guard_dtor()
-/*@BODY guard_dtor*/
-void lock_factory()
+
+/* ---------------- protocol predicates (specification) ---------------- */
+#define IMP(a, b) (!(a) || (b))
+#define FIN(ph) ((ph) == stopped_early || (ph) == completed_normally)
+#define PH_REACH(x, y) ((x) == (y) || ((x) == starting && (y) <= completed_normally) || ((x) == started && (y) == completed_normally))
+/* monitor invariant: holds whenever no thread holds the mutex */
+#define LIV(ph, sr, df, ho, cl, co, sc, dd) ( (ph) <= completed_normally && (df) <= 1 && (co) <= 1 && (cl) <= CL_ENV && (sc) <= SC_DESTROYED \
+  && (FIN(ph) == ((df) == 1)) \
+  && IMP((ph) == starting, !(sr)) && IMP((ph) == started || (ph) == completed_normally, (sr)) \
+  && (((cl) != CL_NONE) == (FIN(ph) && (sr))) /* the completion is owned as soon as the mutex is free with `finished` and start has run */ \
+  && IMP((ho), (ph) == started)               /* ... and then the operation holds no reference to the heap cell any more */ \
+  && IMP((co) == 1, (cl) != CL_NONE && IMP(G.sends_done, (sc) == SC_DESTROYED)) && IMP((dd), (co) == 1) \
+  && IMP(!G.sends_done, (sc) == SC_NONE) && IMP(G.sends_done && (sc) == SC_NONE, (ph) == starting) && IMP(G.sends_done && (sr), (sc) != SC_NONE) \
+  && IMP((sc) == SC_DESTROYED, (cl) != CL_NONE) )
+#define LI(p) LIV((p).ph, (p).start_ran, (p).deferred, (p).holder, (p).claim, (p).completes, (p).stop_cb, (p).dead)
+#define LI_NOW (LIV(OP.state_.phase_, G.start_ran, G.deferred, OP.safe_cb_holder_ != NULL, G.claim, G.completes, G.stop_cb, G.dead) && OP.state_.recursion_ == 0)
+#define PROTO_NOW(p) do { (p).ph = OP.state_.phase_; (p).start_ran = G.start_ran; (p).deferred = G.deferred; (p).holder = OP.safe_cb_holder_ != NULL; \
+  (p).claim = G.claim; (p).completes = G.completes; (p).stop_cb = G.stop_cb; (p).dead = G.dead; } while (0)
+
+/* what the other threads may have done between two of my observations (mode: see ENV_*) */
+#define RELY(a, b, mode) ( PH_REACH((a).ph, (b).ph) && IMP((a).start_ran, (b).start_ran) && (b).deferred >= (a).deferred && (b).completes >= (a).completes \
+  && IMP((a).dead, (b).dead) && (b).stop_cb >= (a).stop_cb && IMP((a).stop_cb == SC_NONE, (b).stop_cb == SC_NONE) \
+  && IMP((a).claim == CL_ME, (b).claim == CL_ME) && IMP((a).claim == CL_ENV, (b).claim == CL_ENV) && IMP((a).claim == CL_NONE, (b).claim != CL_ME) \
+  && IMP((a).claim == CL_ME, (b).ph == (a).ph && (b).start_ran == (a).start_ran && (b).deferred == (a).deferred && (b).holder == (a).holder \
+         && (b).completes == (a).completes && (b).stop_cb == (a).stop_cb && (b).dead == (a).dead)   /* nobody but the owner completes; a finished operation runs no body */ \
+  && IMP((mode) == ENV_STOP_ONLY, (b).claim == CL_NONE && (b).completes == 0 && !(b).dead && (b).holder == (a).holder && (b).stop_cb == (a).stop_cb \
+         && !(b).start_ran && ((b).ph == (a).ph || ((a).ph == starting && (b).ph == stopped_early && (a).stop_cb == SC_LIVE))) \
+  && IMP((mode) == ENV_PROT, (b).completes == (a).completes && (b).dead == (a).dead && (b).stop_cb == (a).stop_cb) \
+  && IMP(G.me == T_START, (b).start_ran == (a).start_ran) )
+
+#define OP_EQ_SNAP (OP.state_.recursion_ == G.snap.state_.recursion_ && OP.state_.phase_ == G.snap.state_.phase_ && OP.safe_cb_holder_ == G.snap.safe_cb_holder_ \
+  && OP.receiver_ == G.snap.receiver_ && OP.stop_ == G.snap.stop_ && OP.ctx_ == G.snap.ctx_ && OP.lock_factory_ == G.snap.lock_factory_ && OP.body_ == G.snap.body_)
+#define DEAD_OK (!G.dead || OP_EQ_SNAP)
+static void vf_op_dies(void) {
+  struct op f;
+  OP.state_.recursion_ = f.state_.recursion_; OP.state_.phase_ = f.state_.phase_; OP.safe_cb_holder_ = VF_nondet_bool() ? &HC : NULL;
+  OP.receiver_ = f.receiver_; OP.stop_ = f.stop_; OP.ctx_ = f.ctx_; OP.lock_factory_ = f.lock_factory_; OP.body_ = f.body_;
+  G.snap = OP; G.dead = 1;
+}
+static struct proto any_proto(void) {
+  struct proto p;
+  p.ph = VF_nondet_u8(); p.start_ran = VF_nondet_bool(); p.deferred = VF_nondet_u8(); p.holder = VF_nondet_bool(); p.claim = VF_nondet_u8();
+  p.completes = VF_nondet_u8(); p.stop_cb = VF_nondet_u8(); p.dead = VF_nondet_bool();
+  return p;
+}
+/* strong references to the heap cell: the operation's holder, locked shared_ptrs of this call, locked shared_ptrs of callback frames elsewhere */
+#define CELL_ALIVE ((!G.dead && OP.safe_cb_holder_ != NULL) || G.my_refs > 0 || G.inflight_env)
+/* the other threads run (only called while my thread does not hold the mutex) */
+static void vf_env(void) {
+  if (G.me == T_DTOR) return;
+  _Bool alive_before = CELL_ALIVE;
+  if (G.dead) { if (VF_nondet_bool()) G.inflight_env = 0; return; }
+  struct proto a, b;
+  PROTO_NOW(a);
+  b = any_proto();
+  __CPROVER_assume(LI(b) && RELY(a, b, G.env_mode));
+  __CPROVER_assume(IMP(G.cb_safe && !a.holder, !b.holder));     /* the cell my weak_ptr observes was created once; a reset holder is not set again (no body runs after completion) */
+  if (a.ph == starting && b.ph == stopped_early) G.stopped_before_start = 1;
+  if (b.deferred > a.deferred) G.kind = (b.ph == stopped_early && !b.start_ran) ? DK_DONE : (uint8_t)(1 + VF_nondet_u8() % 3);
+  if (b.holder) HC = &OP;
+  OP.state_.phase_ = b.ph; G.start_ran = b.start_ran; G.deferred = b.deferred; OP.safe_cb_holder_ = b.holder ? &HC : NULL;
+  G.claim = b.claim; G.completes = b.completes; G.stop_cb = b.stop_cb;
+  /* callback frames of other threads lock the weak_ptr (possible only while the cell is alive) and drop their shared_ptr whenever they return */
+  G.inflight_env = (alive_before || b.holder) ? VF_nondet_bool() : 0;
+  if (b.dead) vf_op_dies();
+}
+
+/* ---------------- the recursive mutex (monitor) ---------------- */
+static void vf_rlock(struct vf_rmutex* m) {
+  VF_P(!G.dead, "the mutex of a destroyed operation is never locked");
+  VF_P(m == &OP.state_.mutex_, "the operation's own mutex");
+  if (G.depth == 0) vf_env();              /* every other thread ran until the mutex was free: the state found satisfies LI */
+  G.depth++; G.locks++;
+  if (!G.locked_once) { G.locked_once = 1; G.ph_at_lock = OP.state_.phase_; }
+}
+static void vf_runlock(struct vf_rmutex* m) {
+  VF_P(!G.dead && m == &OP.state_.mutex_ && G.depth >= 1, "only a held mutex of a live operation is released");
+  G.depth--;
+  if (G.depth == 0) {
+    /* the frame that first leaves the monitor `finished` after start has run owns the completion */
+    if (G.me == T_START) G.start_ran = 1;     /* start's locked section(s): set_started() must have moved the phase (LI) */
+    if (FIN(OP.state_.phase_) && G.start_ran && G.claim == CL_NONE) G.claim = CL_ME;
+    VF_P(LI_NOW, "monitor invariant at the outermost unlock: result stored iff finished, completion owned, holder reset once finished (late safe callbacks find an expired weak_ptr), recursion count back to 0");
+    if (G.me == T_START || G.me == T_CB) G.env_mode = ENV_FREE;     /* user callbacks exist now; nothing keeps the others from completing */
+    vf_env();
+  }
+}
+#define VF_RLOCK(m) vf_rlock(m)
+
+/* ---------------- event stubs ---------------- */
+static void EV_defer(struct op* self, int kind) {           /* receiver_.set_value/set_error/set_done: the result is stored in the wrapper */
+  VF_CANARY("a result can be stored");
+  VF_P(self == &OP && !G.dead && G.depth >= 1, "a result is stored in the live operation, under its lock");
+  VF_P(G.deferred == 0 && G.defers == 0, "at most one completion result is ever stored: exactly one of the racing completions wins");
+  VF_P(FIN(OP.state_.phase_), "the phase is `finished` before the result is stored");
+  G.deferred = 1; G.kind = (uint8_t)kind; G.defers++;
+}
+static void EV_stop_construct(struct op* self) {            /* stop_.construct(token, _stop_callback{*this}): may fire inline or concurrently */
+  VF_CANARY("stop callback construction reachable");
+  VF_P(self == &OP && !G.dead && G.me == T_START && G.sends_done, "the stop callback is registered by start(), for a sender that sends done");
+  VF_P(G.stop_cb == SC_NONE && G.stop_constructs == 0 && !G.start_ran, "the stop callback is registered exactly once, before start's locked section");
+  G.stop_cb = SC_LIVE; G.stop_constructs++;
+  if (G.depth == 0) vf_env();
+}
+static void EV_stop_destruct(struct op* self) {             /* stop_.destruct(): waits for a run in progress on another thread */
+  VF_CANARY("stop callback destruction reachable");
+  VF_P(self == &OP && !G.dead && G.sends_done, "the stop callback is destroyed in the live operation");
+  VF_P(G.stop_cb == SC_LIVE && G.stop_destructs == 0, "the stop callback is destroyed exactly once (registered, not yet destroyed)");
+  VF_P(G.me == T_DTOR || (G.claim == CL_ME && G.depth == 0), "the stop callback is destroyed by the owner of the completion, outside the lock (its destructor waits for a running callback, which takes the lock)");
+  if (G.depth == 0) vf_env();
+  G.stop_cb = SC_DESTROYED; G.stop_destructs++;
+}
+static void EV_receiver_complete(struct op* self) {         /* receiver_.complete(): the stored result reaches the receiver, which may destroy the operation */
+  VF_CANARY("completion delivery reachable");
+  VF_P(self == &OP && !G.dead, "the completion is delivered from the live operation");
+  VF_P(G.claim == CL_ME, "only the owner of the completion delivers it");
+  VF_P(G.completes == 0 && G.my_completes == 0, "the receiver is completed exactly once");
+  VF_P(G.deferred == 1, "a result has been stored before it is delivered");
+  VF_P(G.depth == 0, "the completion is delivered outside the operation's lock (the receiver may destroy the mutex)");
+  VF_P(!G.sends_done || G.stop_cb == SC_DESTROYED, "the stop callback is destroyed before the receiver is completed");
+  VF_P(OP.safe_cb_holder_ == NULL, "the holder is reset before the receiver is completed");
+  G.completes = 1; G.my_completes++;
+  if (VF_nondet_bool()) vf_op_dies();
+}
+static void EV_holder_reset(void*** h) {
+  VF_P(h == &OP.safe_cb_holder_ && !G.dead && G.depth >= 1, "the holder is reset under the lock");
+  *h = NULL; G.holder_resets++;
+}
+static void** EV_make_shared(struct op* self) {
+  VF_P(self == &OP && !G.dead && G.depth >= 1, "the heap cell is created under the lock");
+  HC = self; G.made_shared++;
+  return &HC;
+}
+
+/* ---------------- _state::guard and the default lock factory ---------------- */
+static void lockable_factory_call(struct state_t* state)
 /*@BODY lock_factory*/
-void op_set_value()
+static void guard_ctor(struct op_guard* self, struct state_t* state) {
+  /* : guard_(construct(args...)) -- the lock factory is called with the first argument it accepts (the default one takes the lockable state) */
+  lockable_factory_call(state); self->locked = &state->mutex_;
+  self->recursion_ = &(/*@EXPR guard_recursion_init*/);
+  /*@BODY guard_ctor*/
+}
+static void guard_dtor(struct op_guard* self) {
+  /*@BODY guard_dtor*/
+  vf_runlock(self->locked);              /* members are destroyed after the destructor's body: guard_ (the lock_guard) unlocks last */
+}
+#define OP_GUARD_CTOR(g) guard_ctor((g), &VF_ALIVE(VF_CUR_OP)->state_)
+#define OP_GUARD_DTOR(g) guard_dtor(g)
+#define VF_THROW() (G.threw = 1)
+static _Bool VF_THREW(void) { _Bool t = G.threw; G.threw = 0; return t; }
+
+/* ---------------- functions under contract ---------------- */
+#define COUNTERS_ZERO (G.body_start == 0 && G.body_cb == 0 && G.body_stop == 0 && G.defers == 0 && G.my_completes == 0 && G.stop_constructs == 0 && G.stop_destructs == 0 \
+  && G.holder_resets == 0 && G.made_shared == 0 && G.fallbacks == 0 && G.cb_impl_calls == 0 && G.locks == 0 && !G.threw && !G.any_throw && !G.locked_once && G.my_refs == 0 && !G.got_ptr)
+/* state while my thread holds the mutex (called from inside a body) */
+#define INSIDE_NOW (G.depth >= 1 && G.depth < 1000 && OP.state_.recursion_ == G.depth && OP.state_.phase_ <= completed_normally && (FIN(OP.state_.phase_) == (G.deferred == 1)) && G.deferred <= 1 \
+  && G.claim == CL_NONE && G.completes == 0 && !G.dead && (OP.safe_cb_holder_ == NULL || (OP.safe_cb_holder_ == &HC && HC == &OP)) \
+  && (G.sends_done ? G.stop_cb == SC_LIVE : G.stop_cb == SC_NONE))
+
+#define SET_REQ(self) ((self) == &OP && INSIDE_NOW && COUNTERS_ZERO)
+#define SET_ENS(K) ( (FIN(__CPROVER_old(OP.state_.phase_)) ==> (G.defers == 0 && OP.state_.phase_ == __CPROVER_old(OP.state_.phase_) && G.kind == __CPROVER_old(G.kind))) \
+  && (!FIN(__CPROVER_old(OP.state_.phase_)) ==> (G.defers == 1 && G.kind == (K) && OP.state_.phase_ == (__CPROVER_old(OP.state_.phase_) == starting ? stopped_early : completed_normally))) \
+  && G.deferred <= 1 && G.my_completes == 0 && G.holder_resets == 0 && G.locks == 0 )
+#define VF_CUR_OP self
+void op_set_value(struct op* self)
+__CPROVER_requires(SET_REQ(self))
+__CPROVER_assigns(OP, G)
+__CPROVER_ensures(SET_ENS(DK_VALUE))           /* the first set_* wins; a later one changes nothing */
 /*@BODY op_set_value*/
-void op_set_error()
+void op_set_error(struct op* self)
+__CPROVER_requires(SET_REQ(self))
+__CPROVER_assigns(OP, G)
+__CPROVER_ensures(SET_ENS(DK_ERROR))
 /*@BODY op_set_error*/
-void op_set_done()
-/*@BODY op_set_done*/
-void op_start()
-/*@BODY op_start*/
-void op_start_impl()
-/*@BODY op_start_impl*/
-void op_callback_impl()
-/*@BODY op_callback_impl*/
-void op_complete()
-/*@BODY op_complete*/
-void op_safe_cb_holder()
+void op_set_done(struct op* self)
+__CPROVER_requires(SET_REQ(self) && G.sends_done)
+__CPROVER_assigns(OP, G)
+__CPROVER_ensures(SET_ENS(DK_DONE))
+/*@EXPR op_set_done*/
+
+void** op_safe_cb_holder(struct op* self)
+__CPROVER_requires(self == &OP && INSIDE_NOW && COUNTERS_ZERO)
+__CPROVER_assigns(OP, G, HC)
+__CPROVER_ensures(__CPROVER_return_value == &HC && OP.safe_cb_holder_ == &HC && HC == &OP)
+__CPROVER_ensures(G.made_shared == (__CPROVER_old(OP.safe_cb_holder_) == NULL ? 1 : 0))     /* one cell per operation */
 /*@BODY op_safe_cb_holder*/
-void op_dtor()
-/*@BODY op_dtor*/
-void stop_callback()
+
+/* the user's body: runs under the lock with a reference to the operation; it may complete the operation (any of set_*, any number of
+ * times), create safe callbacks, and invoke callbacks / request stop synchronously (nested frames: same effects, never a completion) */
+static void vf_user_action(struct op* self) {
+  switch (VF_nondet_u8() & 7) {
+  case 1: op_set_value(self); break;
+  case 2: op_set_error(self); break;
+  case 3: if (G.sends_done) op_set_done(self); break;
+  case 4: (void)op_safe_cb_holder(self); break;
+  default: break;
+  }
+}
+static _Bool EV_body(struct op* self, int evt) {
+  VF_P(self == &OP && !G.dead && G.depth >= 1, "the user's body runs on the live operation, under its lock");
+  VF_P(!FIN(OP.state_.phase_), "no body (start / callback / stop hook) runs once the operation is finished: late callbacks are no-ops");
+  if (evt == EVT_START) {
+    VF_P(G.me == T_START && G.body_start == 0 && OP.state_.phase_ == started, "body(start) runs once, from start(), in phase `started`");
+    G.body_start++;
+  } else if (evt == EVT_STOP) {
+    VF_P(G.me == T_STOP && G.sends_done && G.body_stop == 0, "the stop hook runs at most once per stop request");
+    VF_P(OP.state_.phase_ == started, "the stop hook runs only for an operation that was started and has not finished");
+    G.body_stop++;
+  } else {
+    VF_P(G.me == T_CB && G.body_cb == 0 && OP.state_.phase_ == started, "a callback's body runs once per invocation, in phase `started`");
+    G.body_cb++;
+  }
+  vf_user_action(self); vf_user_action(self); vf_user_action(self);
+  _Bool may_throw = evt == EVT_START ? !G.nothrow_start : (evt == EVT_STOP ? !G.nothrow_stop : !G.nothrow_body);
+#ifdef VF_START_BODY_DOES_NOT_THROW
+  if (evt == EVT_START) may_throw = 0;
+#endif
+  if (may_throw && VF_nondet_bool()) { G.any_throw = 1; return 1; }
+  return 0;
+}
+
+/* _op::complete(): called by the owner of the completion, outside the lock */
+void op_complete(struct op* self)
+__CPROVER_requires(self == &OP && !G.dead && G.claim == CL_ME && G.depth == 0 && G.completes == 0 && G.deferred == 1 && G.my_completes == 0 && G.stop_destructs == 0)
+__CPROVER_requires(OP.safe_cb_holder_ == NULL && G.stop_cb == (G.sends_done ? SC_LIVE : SC_NONE) && G.me != T_DTOR)
+__CPROVER_assigns(OP, G, HC)
+__CPROVER_ensures(G.my_completes == 1 && G.completes == 1 && G.stop_destructs == (G.sends_done ? 1 : 0))      /* stop callback destroyed (once), then the receiver completed (once) */
+__CPROVER_ensures(DEAD_OK)
+/*@BODY op_complete*/
+
+static _Bool op_start_impl(struct op* self)
+/*@BODY op_start_impl*/
+
+/* a callback arrives (through a safe or an unsafe callback object, from any thread, possibly from inside a body of the same thread) */
+#define CB_IMPL_REQ(self) ((self) == &OP && G.me == T_CB && G.depth == G.depth0 && COUNTERS_ZERO && (G.depth0 == 0 ? (LI_NOW && G.claim != CL_ME && G.start_ran) : (INSIDE_NOW && OP.state_.phase_ != starting)))   /* callbacks exist only once body(start) has been entered */
+#ifndef VF_STUB_CALLBACK_IMPL
+_Bool op_callback_impl(struct op* self, _Bool Noexcept)
+__CPROVER_requires(/*P*/ !G.dead)
+__CPROVER_requires(CB_IMPL_REQ(self) && Noexcept == G.nothrow_body && G.env_mode != ENV_STOP_ONLY)
+__CPROVER_assigns(OP, G, HC)
+/* a callback that finds the operation finished is a no-op: no body, nothing stored, nothing delivered, state untouched */
+__CPROVER_ensures(__CPROVER_return_value == !FIN(G.ph_at_lock) && G.locked_once)
+__CPROVER_ensures(!__CPROVER_return_value ==> (G.body_cb == 0 && G.defers == 0 && G.my_completes == 0 && G.holder_resets == 0 && G.made_shared == 0 && G.stop_destructs == 0))
+__CPROVER_ensures(__CPROVER_return_value ==> G.body_cb == 1)
+/* it delivers the completion iff it is the frame that left the monitor finished (outermost frame only), exactly once */
+__CPROVER_ensures((G.my_completes == 1) == (G.claim == CL_ME) && G.my_completes <= 1 && G.defers <= 1)
+__CPROVER_ensures(G.depth0 > 0 ==> (G.my_completes == 0 && G.claim == CL_NONE && G.holder_resets == 0))
+__CPROVER_ensures(G.claim == CL_ME ==> (G.depth0 == 0 && __CPROVER_return_value && G.holder_resets == 1 && G.stop_destructs == (G.sends_done ? 1 : 0)))
+__CPROVER_ensures(G.depth == G.depth0 && (G.dead || OP.state_.recursion_ == G.depth0))
+__CPROVER_ensures(DEAD_OK)                               /* nothing of a destroyed operation is touched */
+__CPROVER_ensures(G.body_start == 0 && G.body_stop == 0 && G.stop_constructs == 0)
+/*@BODY op_callback_impl*/
+#else
+/* contract stub for the callback objects */
+static _Bool op_callback_impl(struct op* self, _Bool Noexcept) {
+  VF_P(G.cb_impl_calls == 0, "a callback object forwards one invocation once");
+  G.cb_impl_calls++;
+  VF_P(self == &OP, "the callback reaches the operation it was created for");
+  VF_P(!G.dead, "a callback reaches callback_impl() only on an operation that still exists (late safe callbacks become no-ops and touch nothing of the destroyed operation)");
+  VF_A(Noexcept == G.nothrow_body, "nothrow_body passed through");
+  if (G.dead) return 0;
+  _Bool was_finished;
+  if (G.depth == 0) vf_env();
+  was_finished = FIN(OP.state_.phase_);
+  if (G.depth == 0) { G.env_mode = ENV_FREE; vf_env(); }
+  G.impl_ret = !was_finished;
+  return !was_finished;
+}
+#endif
+
+/* start(op) */
+void op_start(struct op* self)
+__CPROVER_requires(self == &OP && G.me == T_START && G.env_mode == ENV_STOP_ONLY && G.depth == 0 && G.depth0 == 0 && COUNTERS_ZERO && !G.stopped_before_start)
+__CPROVER_requires(OP.state_.phase_ == (/*@EXPR phase_init*/) && OP.state_.recursion_ == (/*@EXPR recursion_init*/) && OP.safe_cb_holder_ == (/*@EXPR holder_init*/))
+__CPROVER_requires(!G.start_ran && G.deferred == 0 && G.claim == CL_NONE && G.completes == 0 && G.stop_cb == SC_NONE && !G.dead && !G.inflight_env)
+__CPROVER_assigns(OP, G, HC)
+__CPROVER_ensures(G.stop_constructs == (G.sends_done ? 1 : 0))                                 /* stop callback registered once (iff the sender sends done) */
+__CPROVER_ensures((G.body_start == 0) == G.stopped_before_start && G.body_start <= 1)          /* body(start) runs unless stop arrived first (then done is sent instead) */
+__CPROVER_ensures((G.my_completes == 1) == (G.claim == CL_ME) && G.my_completes <= 1)          /* delivers the completion iff it owns it */
+__CPROVER_ensures(G.stopped_before_start ==> (G.claim == CL_ME && G.kind == DK_DONE && G.defers == 0))
+__CPROVER_ensures(G.claim == CL_ME ==> (G.stop_destructs == (G.sends_done ? 1 : 0) && G.completes == 1))
+__CPROVER_ensures(G.claim != CL_ME ==> G.stop_destructs == 0)
+__CPROVER_ensures(G.depth == 0 && (G.dead || OP.state_.recursion_ == 0))
+__CPROVER_ensures(DEAD_OK)                               /* start() does not touch an operation that somebody else completed */
+__CPROVER_ensures(G.body_cb == 0 && G.body_stop == 0 && G.defers <= 1)
+/*@BODY op_start*/
+#undef VF_CUR_OP
+
+/* the stop callback (any thread; inline in start's registration; or from inside a body of the same thread) */
+#define VF_CUR_OP (self->op_)
+void stop_callback_call(struct stop_callback* self)
+__CPROVER_requires(self == &SCB && SCB.op_ == &OP && G.me == T_STOP && G.env_mode == ENV_PROT && G.sends_done && G.stop_cb == SC_LIVE && !G.dead && G.depth == G.depth0 && COUNTERS_ZERO)
+__CPROVER_requires(G.depth0 == 0 ? (LI_NOW && G.claim != CL_ME) : INSIDE_NOW)
+__CPROVER_assigns(OP, G, HC)
+/* finished: ignored.  Not started: done is stored instead of start (start() delivers it).  Started: the stop hook runs, once. */
+__CPROVER_ensures(G.locked_once)
+__CPROVER_ensures(FIN(G.ph_at_lock) ==> (G.body_stop == 0 && G.defers == 0 && G.my_completes == 0 && G.holder_resets == 0))
+__CPROVER_ensures(G.ph_at_lock == starting ==> (G.body_stop == 0 && G.defers == 1 && G.kind == DK_DONE && G.my_completes == 0 && G.claim != CL_ME))
+__CPROVER_ensures(G.ph_at_lock == started ==> G.body_stop == 1)
+__CPROVER_ensures((G.my_completes == 1) == (G.claim == CL_ME) && G.my_completes <= 1 && G.defers <= 1)
+__CPROVER_ensures(G.claim == CL_ME ==> (G.depth0 == 0 && G.ph_at_lock == started && G.holder_resets == 1 && G.stop_destructs == 1))
+__CPROVER_ensures(G.claim != CL_ME ==> G.stop_destructs == 0)
+__CPROVER_ensures(G.depth == G.depth0 && (G.dead || OP.state_.recursion_ == G.depth0))
+__CPROVER_ensures(DEAD_OK)
+__CPROVER_ensures(G.body_start == 0 && G.body_cb == 0 && G.stop_constructs == 0)
 /*@BODY stop_callback*/
-void safe_get()
+#undef VF_CUR_OP
+
+/* ~_op */
+#define VF_CUR_OP self
+void op_dtor(struct op* self)
+__CPROVER_requires(self == &OP && G.me == T_DTOR && G.depth == 0 && !G.dead && COUNTERS_ZERO && LI_NOW)
+__CPROVER_requires(G.completes == 1 || (OP.state_.phase_ == starting && G.stop_cb == SC_NONE) || OP.state_.phase_ == started)   /* not destroyed while start() runs or a completion is pending */
+__CPROVER_assigns(OP, G)
+__CPROVER_ensures(G.stop_cb != SC_LIVE)                                                    /* the stop callback never outlives the operation */
+__CPROVER_ensures(G.stop_destructs == (__CPROVER_old(G.stop_cb) == SC_LIVE ? 1 : 0))        /* ... and is destroyed exactly once overall */
+/*@BODY op_dtor*/
+#undef VF_CUR_OP
+
+/* ---------------- callback objects: _callback<Op, Base, Event, Fallback, Args...>::operator() ---------------- */
+static void** EV_weak_lock(struct safe_cb* self) {          /* weak_.lock(): non-null iff some shared_ptr to the heap cell still exists */
+  VF_P(self == &SAFE_CB, "the callback's own weak_ptr");
+  if (G.depth == 0) vf_env();
+  if (CELL_ALIVE) { G.my_refs++; G.got_ptr = 1; return &HC; }
+  return NULL;
+}
+static void EV_fallback(void* self) { VF_P(G.has_fallback && G.fallbacks == 0, "the fallback runs at most once per invocation"); G.fallbacks++; }
+static struct safe_ptr safe_ptr_make(void** p) { struct safe_ptr r; r.ptr_ = p; return r; }
+static struct unsafe_ptr unsafe_ptr_make(void* p) { struct unsafe_ptr r; r.ptr_ = p; return r; }
+static struct safe_ptr safe_cb_get(struct safe_cb* self)
 /*@BODY safe_get*/
-void safe_ptr_op()
+static struct op* safe_ptr_op(struct safe_ptr* self)
 /*@BODY safe_ptr_op*/
-void safe_ptr_bool()
+static _Bool safe_ptr_bool(struct safe_ptr* self)
 /*@BODY safe_ptr_bool*/
-void unsafe_get()
+static struct unsafe_ptr unsafe_cb_get(struct unsafe_cb* self)
 /*@BODY unsafe_get*/
-void unsafe_ptr_op()
+static struct op* unsafe_ptr_op(struct unsafe_ptr* self)
 /*@BODY unsafe_ptr_op*/
-void unsafe_ptr_bool()
+static _Bool unsafe_ptr_bool(struct unsafe_ptr* self)
 /*@BODY unsafe_ptr_bool*/
-void safe_call()
+#define SAFE_PTR_CTOR(p) (*(p) = safe_cb_get(self))
+#define SAFE_PTR_DTOR(p) do { if ((p)->ptr_ != NULL) G.my_refs--; } while (0)       /* the locked shared_ptr is released */
+#define UNSAFE_PTR_CTOR(p) (*(p) = unsafe_cb_get(self))
+#define UNSAFE_PTR_DTOR(p) ((void)0)
+
+#define CB_STATE_REQ (G.me == T_CB && G.depth == G.depth0 && COUNTERS_ZERO && HC == &OP && (G.dead ? (G.depth0 == 0 && OP_EQ_SNAP) : (G.depth0 == 0 ? (LI_NOW && G.claim != CL_ME && G.start_ran) : (INSIDE_NOW && OP.state_.phase_ != starting))))
+void safe_callback_call(struct safe_cb* self)
+__CPROVER_requires(self == &SAFE_CB && G.cb_safe && CB_STATE_REQ && G.env_mode != ENV_STOP_ONLY)
+__CPROVER_assigns(OP, G, HC)
+__CPROVER_ensures(G.cb_impl_calls == (G.got_ptr ? 1 : 0) && G.my_refs == 0)
+__CPROVER_ensures(G.fallbacks == ((G.has_fallback && !(G.cb_impl_calls == 1 && G.impl_ret)) ? 1 : 0))     /* the fallback runs iff the callback did not reach a live, unfinished operation */
+__CPROVER_ensures(DEAD_OK)                                /* a late safe callback touches nothing of the destroyed operation */
+#ifdef VF_CELL_EXPIRED
+__CPROVER_ensures(G.cb_impl_calls == 0)                   /* expired weak_ptr: no-op (plus fallback) */
+#endif
 /*@BODY safe_call*/
-void unsafe_call()
+
+void unsafe_callback_call(struct unsafe_cb* self)
+__CPROVER_requires(self == &UNSAFE_CB && UNSAFE_CB.op_ == (void*)&OP && !G.cb_safe && CB_STATE_REQ && !G.dead && G.env_mode == ENV_PROT)
+__CPROVER_assigns(OP, G, HC)
+__CPROVER_ensures(G.cb_impl_calls == 1 && G.my_refs == 0)
+__CPROVER_ensures(G.fallbacks == ((G.has_fallback && !G.impl_ret) ? 1 : 0))
 /*@BODY unsafe_call*/
-void wrapper_complete()
+
+/* ---------------- _receiver_wrapper::complete(): the stored result reaches the receiver ---------------- */
+static _Bool EV_deliver_stored(struct wrapper* self) {
+  VF_P(self == &WR && G.stored == 0 && G.errors == 0 && !G.stored_threw, "the stored result is delivered once");
+  if (VF_nondet_bool()) { G.stored_threw = 1; return 1; }
+  G.stored++; return 0;
+}
+static void EV_deliver_error(struct wrapper* self) {
+  VF_P(self == &WR && G.stored_threw && G.stored == 0 && G.errors == 0, "set_error reaches the receiver only if delivering the stored result threw, once");
+  G.errors++;
+}
+void wrapper_complete(struct wrapper* self)
+__CPROVER_requires(self == &WR && G.stored == 0 && G.errors == 0 && !G.stored_threw)
+__CPROVER_assigns(G)
+__CPROVER_ensures(G.stored + G.errors == 1 && (G.errors == 1) == G.stored_threw)       /* exactly one signal reaches the receiver */
 /*@BODY wrapper_complete*/
-void raw_connect_impl()
+
+/* ---------------- create_raw_sender: connect; lambda_op: start / stop ---------------- */
+static int EV_factory(int* fn, int rec) {
+  VF_P(fn == &RS.fn_ && G.factory_calls == 0, "the factory stored in the sender is invoked exactly once per connect, with the receiver");
+  G.factory_calls++; return rec + 1;
+}
+static int lambda_op_wrap(int state) { VF_P(!G.has_start && G.wraps == 0, "only a result without start() is wrapped in _lambda_op::_op"); G.wraps++; return state; }
+static int raw_connect_impl(int* fn, int rec)
 /*@BODY raw_connect_impl*/
-void raw_connect_rvalue()
+int raw_connect_rvalue(struct raw_sender* self, int rec)
+__CPROVER_requires(self == &RS && G.factory_calls == 0 && G.wraps == 0 && rec >= 0 && rec < 1000)
+__CPROVER_assigns(G)
+__CPROVER_ensures(G.factory_calls == 1 && G.wraps == (G.has_start ? 0 : 1) && __CPROVER_return_value == rec + 1)
 /*@BODY raw_connect_rvalue*/
-void raw_connect_lvalue()
+int raw_connect_lvalue(struct raw_sender* self, int rec)
+__CPROVER_requires(self == &RS && G.factory_calls == 0 && G.wraps == 0 && rec >= 0 && rec < 1000)
+__CPROVER_assigns(G)
+__CPROVER_ensures(G.factory_calls == 1 && G.wraps == (G.has_start ? 0 : 1) && __CPROVER_return_value == rec + 1)
 /*@BODY raw_connect_lvalue*/
-void lop_plain_start()
+static void EV_lambda(struct lop* self, int evt, _Bool with_self) {
+  VF_P(self == &LOP && G.lambda_calls == 0, "the wrapped callable is invoked once per start() / stop()");
+  G.lambda_calls++; G.lambda_evt = evt; G.lambda_self = with_self;
+}
+void lop_plain_start(struct lop* self)
+__CPROVER_requires(self == &LOP && G.lambda_calls == 0)
+__CPROVER_assigns(G)
+__CPROVER_ensures(G.lambda_calls == 1 && G.lambda_evt == LE_CALL)
 /*@BODY lop_plain_start*/
-void lop_evt_start()
+void lop_evt_start(struct lop* self)
+__CPROVER_requires(self == &LOP && G.lambda_calls == 0)
+__CPROVER_assigns(G)
+__CPROVER_ensures(G.lambda_calls == 1 && G.lambda_evt == LE_START && G.lambda_self == G.takes_self)
 /*@BODY lop_evt_start*/
-void lop_evt_stop()
+void lop_evt_stop(struct lop* self)
+__CPROVER_requires(self == &LOP && G.lambda_calls == 0)
+__CPROVER_assigns(G)
+__CPROVER_ensures(G.lambda_calls == 1 && G.lambda_evt == LE_STOP && G.lambda_self == G.takes_self)
 /*@BODY lop_evt_stop*/
+
+/* ---------------- harnesses ---------------- */
+static void h_zero(int me, int mode) {
+  G.me = me; G.env_mode = mode;
+  G.sends_done = VF_nondet_bool(); G.nothrow_start = VF_nondet_bool(); G.nothrow_stop = VF_nondet_bool(); G.nothrow_body = VF_nondet_bool();
+  G.has_fallback = VF_nondet_bool(); G.has_start = VF_nondet_bool(); G.takes_self = VF_nondet_bool();
+  G.depth = 0; G.depth0 = 0; G.my_refs = 0; G.inflight_env = 0; G.cb_safe = 0;
+  G.body_start = 0; G.body_cb = 0; G.body_stop = 0; G.defers = 0; G.my_completes = 0; G.stop_constructs = 0; G.stop_destructs = 0; G.holder_resets = 0; G.made_shared = 0;
+  G.fallbacks = 0; G.cb_impl_calls = 0; G.locks = 0; G.stored = 0; G.errors = 0; G.factory_calls = 0; G.wraps = 0; G.lambda_calls = 0; G.lambda_evt = -1; G.lambda_self = 0;
+  G.threw = 0; G.any_throw = 0; G.locked_once = 0; G.ph_at_lock = 0; G.stopped_before_start = 0; G.stored_threw = 0; G.impl_ret = 0; G.got_ptr = 0;
+  G.start_ran = 0; G.deferred = 0; G.kind = DK_NONE; G.claim = CL_NONE; G.completes = 0; G.stop_cb = SC_NONE; G.dead = 0;
+  HC = &OP; SCB.op_ = &OP; UNSAFE_CB.op_ = &OP;
+}
+/* any state the monitor invariant allows (mutex free) */
+static void h_any_free_state(void) {
+  struct proto p = any_proto();
+  __CPROVER_assume(LI(p) && p.claim != CL_ME);
+  OP.state_.phase_ = p.ph; OP.state_.recursion_ = 0; G.start_ran = p.start_ran; G.deferred = p.deferred; G.kind = p.deferred ? (uint8_t)(1 + VF_nondet_u8() % 3) : DK_NONE;
+  OP.safe_cb_holder_ = p.holder ? &HC : NULL; G.claim = p.claim; G.completes = p.completes; G.stop_cb = p.stop_cb;
+  if (p.dead) vf_op_dies();
+}
+/* any state in which my thread already holds the mutex `d` times (the call comes from inside a body) */
+static void h_any_inside_state(void) {
+  unsigned d = VF_nondet_u8();
+  __CPROVER_assume(d >= 1 && d <= 200);
+  G.depth = d; G.depth0 = d; OP.state_.recursion_ = (uint16_t)d;
+  OP.state_.phase_ = VF_nondet_u8(); G.deferred = VF_nondet_u8(); G.kind = G.deferred ? (uint8_t)(1 + VF_nondet_u8() % 3) : DK_NONE;
+  OP.safe_cb_holder_ = VF_nondet_bool() ? &HC : NULL; G.start_ran = 1; G.stop_cb = G.sends_done ? SC_LIVE : SC_NONE;
+  __CPROVER_assume(INSIDE_NOW && OP.state_.phase_ != starting);
+}
+void h_op_set_value(void) { h_zero(T_CB, ENV_PROT); h_any_inside_state(); if (VF_nondet_bool()) { OP.state_.phase_ = starting; G.start_ran = 0; __CPROVER_assume(INSIDE_NOW); } op_set_value(&OP); VF_CANARY("after set_value"); if (G.defers) { VF_CANARY("set_value can win"); } else { VF_CANARY("set_value can lose"); } }
+void h_op_set_error(void) { h_zero(T_CB, ENV_PROT); h_any_inside_state(); op_set_error(&OP); VF_CANARY("after set_error"); if (G.defers) { VF_CANARY("set_error can win"); } else { VF_CANARY("set_error can lose"); } }
+void h_op_set_done(void) { h_zero(T_STOP, ENV_PROT); G.sends_done = 1; h_any_inside_state(); if (VF_nondet_bool()) { OP.state_.phase_ = starting; G.start_ran = 0; __CPROVER_assume(INSIDE_NOW); } op_set_done(&OP); VF_CANARY("after set_done"); if (G.defers && OP.state_.phase_ == stopped_early) { VF_CANARY("done can be stored before start"); } }
+void h_op_safe_cb_holder(void) { h_zero(T_CB, ENV_PROT); h_any_inside_state(); void** r = op_safe_cb_holder(&OP); VF_CANARY("after safe_cb_holder"); if (G.made_shared) { VF_CANARY("first safe callback creates the cell"); } else { VF_CANARY("later ones share it"); } }
+void h_op_complete(void) {
+  h_zero(T_CB, ENV_FREE); h_any_free_state();
+  __CPROVER_assume(!G.dead && G.claim == CL_ENV && G.completes == 0 && OP.safe_cb_holder_ == NULL && G.stop_cb == (G.sends_done ? SC_LIVE : SC_NONE));
+  G.claim = CL_ME;
+  op_complete(&OP);
+  VF_CANARY("after complete()"); if (G.dead) { VF_CANARY("the receiver can destroy the operation"); }
+}
+void h_op_callback_impl(void) {
+  h_zero(T_CB, ENV_PROT);
+  if (VF_nondet_bool()) { h_any_free_state(); __CPROVER_assume(!G.dead); } else h_any_inside_state();
+  _Bool r = op_callback_impl(&OP, G.nothrow_body);
+  VF_CANARY("after callback_impl");
+  if (!r) { VF_CANARY("a late callback is a no-op"); }
+  if (G.my_completes) { VF_CANARY("a callback can deliver the completion"); }
+  if (r && G.depth0 > 0) { VF_CANARY("a nested callback runs its body"); }
+  if (r && G.claim == CL_ENV) { VF_CANARY("another thread can complete after this callback returned the lock"); }
+  if (G.dead && !G.my_completes) { VF_CANARY("the operation can be gone when the callback returns"); }
+  if (G.any_throw) { VF_CANARY("a throwing callback body becomes set_error"); }
+  if (G.body_cb) { VF_CANARY("body(callback) reachable"); }
+}
+void h_op_start(void) {
+  h_zero(T_START, ENV_STOP_ONLY);
+  OP.state_.phase_ = /*@EXPR phase_init*/; OP.state_.recursion_ = /*@EXPR recursion_init*/; OP.safe_cb_holder_ = /*@EXPR holder_init*/;
+  op_start(&OP);
+  VF_CANARY("after start()");
+  if (G.stopped_before_start) { VF_CANARY("stop before start: done instead of body(start)"); }
+  if (G.my_completes && !G.stopped_before_start) { VF_CANARY("body(start) can complete synchronously"); }
+  if (!G.my_completes && G.claim == CL_ENV) { VF_CANARY("another thread can complete right after start() released the lock"); }
+  if (G.dead && !G.my_completes) { VF_CANARY("the operation can be gone when start() returns"); }
+  if (G.claim == CL_NONE) { VF_CANARY("start() can return with the operation pending"); }
+  if (G.body_start) { VF_CANARY("body(start) reachable"); }
+#ifndef VF_START_BODY_DOES_NOT_THROW
+  if (G.any_throw) { VF_CANARY("body(start) can throw"); }
+#endif
+}
+void h_stop_callback(void) {
+  h_zero(T_STOP, ENV_PROT); G.sends_done = 1;
+  if (VF_nondet_bool()) { h_any_free_state(); __CPROVER_assume(!G.dead && G.stop_cb == SC_LIVE); } else h_any_inside_state();
+  stop_callback_call(&SCB);
+  VF_CANARY("after the stop callback");
+  if (G.ph_at_lock == starting) { VF_CANARY("stop before start"); }
+  if (FIN(G.ph_at_lock)) { VF_CANARY("stop after completion is ignored"); }
+  if (G.my_completes) { VF_CANARY("the stop hook can complete the operation"); }
+  if (G.body_stop && !G.defers) { VF_CANARY("the stop hook can leave the operation pending"); }
+  if (G.body_stop) { VF_CANARY("body(stop) reachable"); }
+}
+void h_op_dtor(void) {
+  h_zero(T_DTOR, ENV_PROT); h_any_free_state();
+  __CPROVER_assume(!G.dead);
+  op_dtor(&OP);
+  VF_CANARY("after ~_op"); if (G.stop_destructs) { VF_CANARY("~_op destroys a stop callback left behind"); }
+}
+static void h_cb_state(void) {
+  if (VF_nondet_bool()) { h_any_free_state(); if (G.dead) G.snap = OP; } else h_any_inside_state();
+}
+void h_safe_callback(void) {
+  h_zero(T_CB, ENV_FREE); G.cb_safe = 1;
+#if defined(VF_CELL_EXPIRED)
+  /* the sender has completed, its holder is reset, no callback frame holds a locked pointer: the operation may be gone */
+  h_any_free_state(); if (G.dead) G.snap = OP;
+  __CPROVER_assume(G.claim != CL_NONE && (G.dead || OP.safe_cb_holder_ == NULL));
+#elif defined(VF_OP_PROTECTED)
+  /* ASSUMPTION of this unit: nothing completes the operation between weak_.lock() and callback_impl()'s lock */
+  G.env_mode = ENV_PROT; h_cb_state(); __CPROVER_assume(!G.dead && OP.safe_cb_holder_ == &HC);
+#else
+  h_cb_state(); G.inflight_env = VF_nondet_bool();
+#endif
+  safe_callback_call(&SAFE_CB);
+  VF_CANARY("after the safe callback");
+  if (G.cb_impl_calls == 0) { VF_CANARY("an expired safe callback is a no-op"); }
+  if (G.fallbacks) { VF_CANARY("the fallback can run"); }
+#if !defined(VF_CELL_EXPIRED)
+  if (G.cb_impl_calls) { VF_CANARY("a live safe callback reaches callback_impl"); }
+#endif
+}
+void h_unsafe_callback(void) {
+  h_zero(T_CB, ENV_PROT);
+  h_cb_state(); __CPROVER_assume(!G.dead);       /* user's obligation: an unsafe callback is not invoked after (or while) the sender completes */
+  unsafe_callback_call(&UNSAFE_CB);
+  VF_CANARY("after the unsafe callback");
+}
+void h_wrapper_complete(void) { h_zero(T_CB, ENV_PROT); wrapper_complete(&WR); VF_CANARY("after _receiver_wrapper::complete"); if (G.errors) { VF_CANARY("a throwing delivery becomes set_error"); } }
+void h_raw_connect_rvalue(void) { h_zero(T_START, ENV_PROT); int r = raw_connect_rvalue(&RS, 7); VF_CANARY("after connect(&&)"); if (G.wraps) { VF_CANARY("callable wrapped"); } else { VF_CANARY("operation state returned as is"); } }
+void h_raw_connect_lvalue(void) { h_zero(T_START, ENV_PROT); int r = raw_connect_lvalue(&RS, 7); VF_CANARY("after connect(&)"); }
+void h_lop_plain_start(void) { h_zero(T_START, ENV_PROT); lop_plain_start(&LOP); VF_CANARY("after plain start"); }
+void h_lop_evt_start(void) { h_zero(T_START, ENV_PROT); lop_evt_start(&LOP); VF_CANARY("after event start"); }
+void h_lop_evt_stop(void) { h_zero(T_STOP, ENV_PROT); lop_evt_stop(&LOP); VF_CANARY("after event stop"); }
+
+/* ---------------- M4 lemmas over the contracts ---------------- */
+struct lstate { struct proto p; uint8_t owner; };      /* owner of the completion: 0 nobody, else the party */
+enum { PT_START = 1, PT_CB, PT_STOP };
+enum { S_CONSTRUCT, S_STOP_EARLY, S_START_SECTION, S_CB_SECTION, S_STOP_SECTION, S_COMPLETE, S_DIE, S_NKINDS };
+#define REL_CLAIM(owner, who) ((owner) == 0 ? CL_NONE : ((owner) == (who) ? CL_ME : CL_ENV))
+/* one locked section of a body: it may finish the operation (first set_* wins) and may create the heap cell; on the way out a finished
+ * operation that has been started gets its owner and loses its holder -- exactly what LI_NOW at the outermost unlock demands */
+static void body_section(struct lstate* s, uint8_t who) {
+  if (VF_nondet_bool()) s->p.holder = 1;
+  if (VF_nondet_bool()) { s->p.ph = completed_normally; s->p.deferred = 1; }
+  if (FIN(s->p.ph) && s->p.start_ran) { if (s->owner == 0) s->owner = who; s->p.holder = 0; }
+}
+static _Bool lstep(int kind, struct lstate a, struct lstate* out, uint8_t* actor) {
+  struct lstate b = a;
+  _Bool en = 0;
+  switch (kind) {
+  case S_CONSTRUCT: *actor = PT_START; en = G.sends_done && a.p.stop_cb == SC_NONE && a.p.ph == starting && !a.p.start_ran; b.p.stop_cb = SC_LIVE; break;
+  case S_STOP_EARLY: *actor = PT_STOP; en = a.p.stop_cb == SC_LIVE && a.p.ph == starting; b.p.ph = stopped_early; b.p.deferred = 1; break;
+  case S_START_SECTION: *actor = PT_START; en = !a.p.start_ran && (a.p.ph == starting || a.p.ph == stopped_early) && (G.sends_done ? a.p.stop_cb == SC_LIVE : a.p.stop_cb == SC_NONE);
+    b.p.start_ran = 1; if (a.p.ph == starting) { b.p.ph = started; body_section(&b, PT_START); } else { b.owner = PT_START; } break;
+  case S_CB_SECTION: *actor = PT_CB; en = a.p.ph == started && !a.p.dead; body_section(&b, PT_CB); break;
+  case S_STOP_SECTION: *actor = PT_STOP; en = a.p.ph == started && a.p.stop_cb == SC_LIVE && !a.p.dead; body_section(&b, PT_STOP); break;
+  case S_COMPLETE: *actor = a.owner; en = a.owner != 0 && a.p.completes == 0; b.p.stop_cb = G.sends_done ? SC_DESTROYED : SC_NONE; b.p.completes = 1; break;
+  case S_DIE: *actor = a.owner; en = a.p.completes == 1 && !a.p.dead; b.p.dead = 1; break;
+  default: en = 0;
+  }
+  *out = b;
+  return en;
+}
+void lemma_basic_protocol(void) {
+  G.sends_done = VF_nondet_bool();
+  struct lstate a, b; a.p = any_proto(); a.owner = VF_nondet_u8();
+  __CPROVER_assume(a.owner <= PT_STOP && a.p.claim == (a.owner ? CL_ENV : CL_NONE) && LI(a.p));
+  int kind = VF_nondet_int();
+  __CPROVER_assume(kind >= 0 && kind < S_NKINDS);
+  uint8_t actor = 0;
+  _Bool en = lstep(kind, a, &b, &actor);
+  __CPROVER_assume(en);
+  b.p.claim = b.owner ? CL_ENV : CL_NONE;
+  VF_CANARY("lemma premises satisfiable");
+  if (kind == S_START_SECTION && a.p.ph == stopped_early) { VF_CANARY("lemma: start after an early stop"); }
+  if (kind == S_STOP_SECTION && b.owner == PT_STOP) { VF_CANARY("lemma: the stop hook completes"); }
+  VF_P(LI(b.p), "lemma: every step of every party leaves the monitor invariant");
+  VF_P(IMP(a.owner != 0, b.owner == a.owner), "lemma: the completion has one owner, for ever: exactly one of start / callback / stop completes the receiver");
+  VF_P(b.p.completes <= 1 && b.p.deferred <= 1 && IMP(kind == S_COMPLETE, a.p.completes == 0 && a.p.deferred == 1), "lemma: one result is stored and it is delivered once");
+  VF_P(IMP(FIN(b.p.ph) && b.p.start_ran, !b.p.holder), "lemma: once the sender has finished (mutex free) the operation holds no reference to the heap cell: late safe callbacks see an expired weak_ptr unless a callback frame still holds a locked pointer");
+  VF_P(IMP(kind == S_DIE, a.p.completes == 1), "lemma: the operation is destroyed only after the completion was delivered");
+  /* guarantee of the actor is within the rely of every other party, in the mode that party is in */
+  for (uint8_t who = PT_START; who <= PT_STOP; who++) {
+    if (who == actor) continue;
+    struct proto ra = a.p, rb = b.p;
+    ra.claim = REL_CLAIM(a.owner, who); rb.claim = REL_CLAIM(b.owner, who);
+    G.me = who == PT_START ? T_START : (who == PT_CB ? T_CB : T_STOP);
+    if (who == PT_START && !a.p.start_ran && a.p.stop_cb != SC_NONE) VF_P(RELY(ra, rb, ENV_STOP_ONLY), "lemma: before start's locked section only the stop callback moves, as start() relies on");
+    if (who == PT_START && a.p.start_ran) VF_P(RELY(ra, rb, ENV_FREE), "lemma: steps of the others are allowed by start()'s rely after its locked section");
+    if (who == PT_CB && a.p.start_ran) VF_P(RELY(ra, rb, ENV_FREE), "lemma: steps of the others are allowed by a callback's rely");
+    if (who == PT_STOP && a.p.stop_cb == SC_LIVE && kind != S_COMPLETE && kind != S_DIE) VF_P(RELY(ra, rb, ENV_PROT), "lemma: while the stop callback runs, every step except the delivery (which waits for it in stop_.destruct()) is allowed by its rely");
+  }
+}
+void lemma_basic_rely(void) {
+  G.sends_done = VF_nondet_bool();
+  struct proto a = any_proto(), b = any_proto(), c = any_proto();
+  int mode = VF_nondet_int();
+  __CPROVER_assume(mode >= ENV_STOP_ONLY && mode <= ENV_FREE);
+  G.me = VF_nondet_bool() ? T_START : T_CB;
+  __CPROVER_assume(LI(a));
+  __CPROVER_assume(IMP(mode == ENV_STOP_ONLY, a.claim == CL_NONE && a.completes == 0 && !a.dead && !a.start_ran));
+  VF_P(RELY(a, a, mode), "lemma: the rely is reflexive");
+  __CPROVER_assume(LI(b) && LI(c) && RELY(a, b, mode) && RELY(b, c, mode));
+  VF_CANARY("rely premises satisfiable");
+  VF_P(RELY(a, c, mode), "lemma: the rely is transitive");
+}
+void lemma_basic_init(void) {
+  G.sends_done = VF_nondet_bool();
+  VF_P(LIV(/*@EXPR phase_init*/, 0, 0, (/*@EXPR holder_init*/) != 0, CL_NONE, 0, SC_NONE, 0) && (/*@EXPR recursion_init*/) == 0, "lemma: a freshly constructed operation satisfies the monitor invariant");
+  VF_P(starting != started && started != stopped_early && stopped_early != completed_normally && starting != stopped_early && starting != completed_normally && started != completed_normally && completed_normally <= 3, "lemma: four distinct phases");
+  struct state_t s; s.recursion_ = 1;
+  G.dead = 0;
+  s.phase_ = starting; VF_P(!state_finished(&s) && state_not_started(&s) && !state_completed(&s), "lemma: starting");
+  state_set_finished(&s); VF_P(s.phase_ == stopped_early && state_finished(&s) && state_completed(&s), "lemma: finishing before start gives stopped_early");
+  state_set_started(&s); VF_P(s.phase_ == stopped_early, "lemma: set_started keeps stopped_early");
+  s.phase_ = starting; state_set_started(&s); VF_P(s.phase_ == started && !state_finished(&s) && !state_not_started(&s), "lemma: started");
+  state_set_finished(&s); VF_P(s.phase_ == completed_normally && state_finished(&s), "lemma: finishing after start gives completed_normally");
+  s.recursion_ = 2; VF_P(!state_completed(&s), "lemma: a nested frame never sees completed()");
+  VF_CANARY("lemma_basic_init reachable");
+}
